@@ -41,6 +41,7 @@ type stageResult struct {
 	site   string // panics: first acmelib frame + panic kind; BADPOS: nofile|outside|notokenstart|noposition
 	detail string
 	stack  string
+	full   string // the whole error text on one line (importer errors: compared with the model's reason)
 }
 
 const repoPkg = "github.com/squadracorsepolito/acmelib"
@@ -105,6 +106,14 @@ func oneLine(s string, max int) string {
 	return s
 }
 
+// tailOf keeps the end of an error chain (the innermost cause comes last).
+func tailOf(s string, max int) string {
+	if len(s) > max {
+		return s[len(s)-max:]
+	}
+	return s
+}
+
 func panicResult(r any, stack []byte) stageResult {
 	msg := fmt.Sprint(r)
 	fn, loc := panicSite(string(stack))
@@ -121,7 +130,7 @@ func classifyErr(filename string, text []byte, err error, parseStage bool) stage
 		if parseStage {
 			return stageResult{class: clsBadPos, site: "noposition", detail: oneLine(err.Error(), 200)}
 		}
-		return stageResult{class: clsOther, detail: oneLine(err.Error(), 200)}
+		return stageResult{class: clsOther, detail: oneLine(err.Error(), 200), full: tailOf(oneLine(err.Error(), 1<<20), 600)}
 	}
 	if !o.NamesFile {
 		return stageResult{class: clsBadPos, site: "nofile", detail: oneLine(err.Error(), 200)}
@@ -187,6 +196,8 @@ func runParseHex(filename string, text []byte) stageResult {
 	return res
 }
 
+const modelSelectorBits = 8
+
 func runImport(filename string, text []byte) (res stageResult) {
 	defer func() {
 		if r := recover(); r != nil {
@@ -202,8 +213,31 @@ func runImport(filename string, text []byte) (res stageResult) {
 
 // emitRecord writes the record of one input; a panic inside EmitCase (scanner hook, projection,
 // writer) turns the record into a short one and is reported as a parse-stage panic.
-func emitRecord(idx int, in input, o dbccase.Outcome, importClass string) (rec []byte, res stageResult) {
+func emitRecord(idx int, in input, o dbccase.Outcome, importClass, importErr string) (rec []byte, res stageResult) {
 	extra := []string{"IMPORT " + importClass}
+	if importClass == clsOther {
+		extra = append(extra, "IMPORTERR "+importErr)
+	}
+	if o.Class == "ok" && o.File != nil && (importClass == clsOK || importClass == clsOther) {
+		// the parsed document for the model of the importer (coq/C10/Import.v): outcome classes are compared.
+		// The model builds the group list of a multiplexer explicitly (2^width entries, quadratic checks):
+		// selectors wider than 8 bits are left to the execution alone.
+		if dbccase.WideMux(o.File, modelSelectorBits) {
+			extra = append(extra, "C10SKIP selector")
+		} else {
+			func() {
+				defer func() { recover() }()
+				if tree, ok, big := dbccase.C10Doc("in.dbc", o.File); ok {
+					if big {
+						extra = append(extra, "C10FLOATCONV")
+					}
+					extra = append(extra, "C10DOC "+tree)
+				} else {
+					extra = append(extra, "C10SKIP float")
+				}
+			}()
+		}
+	}
 	var buf bytes.Buffer
 	w := bufio.NewWriter(&buf)
 	if in.short {
